@@ -28,6 +28,10 @@ RefNoPanic(r) == r # "panic"
 \* MakeReader may fail (the trailer may be gone), but a Reader it does return
 \* must not hand out other values for complete objects ("baddata"), nor panic
 RefReaderSound(mr) == mr \notin {"baddata", "panic"}
+\* When nothing of the file is missing (intact, or only cross-reference data
+\* overwritten) the Reader built from the scan must be available: it is the
+\* way "reading it" works for a file whose xref cannot be used
+RefReaderAvailable(whole, mr) == whole => mr = "ok"
 RefHolds(objs, c, r, ls, s, v) ==
   /\ RefNoPanic(r)
   /\ RefScanReturns(objs, c, r)
